@@ -27,18 +27,18 @@ use crate::error::Error;
 use super::{ExprType, FlagsState, GeneratorState};
 
 impl<'a> GeneratorState<'a> {
-    fn purge_deferred_plusplus(&mut self) -> Result<(), Error> {
-        let def = self.deferred_plusplus.clone();
-        self.deferred_plusplus.clear();
+    // Applies the ++/-- left pending since the list had `before` entries. A sequence point
+    // inside an expression (comma, call) only completes what its own operands left pending:
+    // the operands of the enclosing expression that carry an older entry are still to be read
+    pub(crate) fn purge_deferred_plusplus_since(&mut self, before: usize) -> Result<(), Error> {
+        let def = self.deferred_plusplus.split_off(before);
         for d in def {
             self.generate_plusplus(&d.0, d.1, d.2)?;
         }
         Ok(())
     }
 
-    fn purge_deferred_plusplus_and_savey(&mut self) -> Result<(), Error> {
-        self.purge_deferred_plusplus()?;
-
+    fn restore_saved_y(&mut self) {
         if self.saved_y {
             self.asm_restore_y();
             self.saved_y = false;
@@ -46,6 +46,12 @@ impl<'a> GeneratorState<'a> {
             self.flags = FlagsState::Y;
             self.carry_flag_ok = false;
         }
+    }
+
+    // End of a full expression
+    fn purge_deferred_plusplus_and_savey(&mut self) -> Result<(), Error> {
+        self.purge_deferred_plusplus_since(0)?;
+        self.restore_saved_y();
         Ok(())
     }
 
@@ -107,6 +113,7 @@ impl<'a> GeneratorState<'a> {
                                 } else {
                                     0
                                 };
+                                let pending_before = self.deferred_plusplus.len();
                                 if self.acc_in_use {
                                     self.sasm(PHA)?;
                                 }
@@ -197,7 +204,7 @@ impl<'a> GeneratorState<'a> {
 
                                 // The arguments are evaluated: their pending ++/-- take effect
                                 // before the function is entered
-                                self.purge_deferred_plusplus()?;
+                                self.purge_deferred_plusplus_since(pending_before)?;
 
                                 debug!("Function call from bank #{}; {}", self.current_bank, var);
                                 if f.interrupt {
@@ -700,8 +707,10 @@ impl<'a> GeneratorState<'a> {
                     .compiler_state
                     .syntax_error("Unexpected ':'. Probably a ';' typo", pos)),
                 Operation::Comma => {
+                    let before = self.deferred_plusplus.len();
                     self.generate_expr(lhs, pos, false, false)?;
-                    self.purge_deferred_plusplus_and_savey()?;
+                    self.purge_deferred_plusplus_since(before)?;
+                    self.restore_saved_y();
                     self.acc_in_use = false;
                     self.tmp_in_use = false;
                     self.generate_expr(rhs, pos, false, false)
